@@ -18,6 +18,17 @@ def programs(ctx):
     some = ["Sub", "SubAssign", "Shl", "ShlAssign", "Add", "AddAssign", "Neg"] if ctx.quick else ALL
     for j, (mode, kind) in enumerate([("entry", "tuple"), ("shared", "named"), ("field", "tuple")] + ([] if ctx.quick else [("entry", "named"), ("shared", "tuple"), ("field", "named")])):
         out.append(fam2.c08_prog("p_%04d" % (len(shapes) + j), kind, 2, some, bounds=mode))
+    # `Self` in bound(..) predicates and in field types: the impls for `&X` must still be about X
+    text = ("pub trait Tr {}\npub struct Tag<W>(pub core::marker::PhantomData<W>, pub L);\n"
+            "impl<W> core::ops::Neg for Tag<W> { type Output = Tag<W>; fn neg(self) -> Tag<W> { Tag(self.0, -self.1) } }\n"
+            "impl<'a, W> core::ops::Neg for &'a Tag<W> { type Output = Tag<W>; fn neg(self) -> Tag<W> { Tag(self.0, -self.1) } }\n"
+            "#[derive_ex::derive_ex(Add, AddAssign, Neg, bound(Self: Tr, ..))]\n#[derive(Clone, Copy, Debug, PartialEq)]\npub struct S<T>(pub L, pub T);\nimpl Tr for S<L> {}\n"
+            "#[derive_ex::derive_ex(Neg)]\npub struct P { pub t: Tag<Self>, pub l: L }\n\n"
+            "pub fn ncheck() -> Vec<String> { let mut out = Vec::new(); let a = S(L { v: 3, n: 0 }, L { v: 5, n: 0 }); let b = S(L { v: 7, n: 0 }, L { v: 9, n: 0 });\n"
+            "    if &a + &b != a + b || &a + b != a + b || a + &b != a + b || -&a != -a { out.push(\"reference forms differ from the owned form\".to_string()); }\n"
+            "    let p = P { t: Tag(core::marker::PhantomData, L { v: 1, n: 0 }), l: L { v: 2, n: 0 } }; let q = -&p; let r = -p; if q.l != r.l || q.t.1 != r.t.1 { out.push(\"-&P differs from -P\".to_string()); }\n    out }\n"
+            "pub fn replay(_h: &str, _b: &[u8]) -> (bool, String) { (true, String::new()) }\n")
+    out.append(E.Prog("p_self_in_bounds", text, [], {"describe": "Self in bound(..) and in a field type: derive_ex(Add, AddAssign, Neg, bound(Self: Tr, ..)) struct S<T>(L, T); derive_ex(Neg) struct P { t: Tag<Self>, l: L }"}, ncheck=True))
     return out
 
 
